@@ -533,7 +533,7 @@ def check(prop, tier="quick", seed=0):
     oracle_fail_idx.sort(key=lambda i: len(json.dumps(cases[i], default=repr)))
     for i in oracle_fail_idx[:3]:
         c, o = cases[i], obs[i]
-        if hasattr(driver, "shrink"):
+        if hasattr(driver, "shrink") and "timeout" not in str(verdicts[i])[:40]:   # never shrink a hang: every candidate may hang too
             c, o = shrink_case(driver, c, lambda cc, oo: driver.oracle(cc, oo) is not None)
             cases[i], obs[i] = c, o
         report("oracle", i, verdicts[i] if c is cases[i] else driver.oracle(c, o))
